@@ -66,6 +66,17 @@ func (c Case) setDefaults(api calls.API) func() {
 	return api.Defaults(c.Defaults.Neg, c.Defaults.Limit)
 }
 
+// defaultsIntact: the package-level defaults are the caller's; the library only reads them.
+func (c Case) defaultsIntact(api calls.API) error {
+	if c.Defaults == nil {
+		return nil
+	}
+	if n, l := api.ReadDefaults(); n != c.Defaults.Neg || l != c.Defaults.Limit {
+		return fmt.Errorf("after the workload: the package-level defaults were rewritten: SupportNegativeIndices=%v AccumulatedCopySizeLimit=%d, assigned %v and %d", n, l, c.Defaults.Neg, c.Defaults.Limit)
+	}
+	return nil
+}
+
 func draw(pkg string) func(*rapid.T) Case {
 	return func(t *rapid.T) Case {
 		pool := calls.DrawPool(t, pkg == "legacy")
@@ -75,7 +86,7 @@ func draw(pkg string) func(*rapid.T) Case {
 			Procs:  rapid.SampledFrom([]int{1, 2, 4, 16}).Draw(t, "procs"),
 			Cold:   gen.OneIn(t, 12, "cold")}
 		if gen.OneIn(t, 4, "pkgdefaults") {
-			c.Defaults = &PkgDefaults{Neg: rapid.Bool().Draw(t, "pdneg"), Limit: rapid.SampledFrom([]int64{0, 0, 40, 400}).Draw(t, "pdlimit")}
+			c.Defaults = &PkgDefaults{Neg: rapid.Bool().Draw(t, "pdneg"), Limit: rapid.SampledFrom([]int64{0, 0, 40, 400, -1}).Draw(t, "pdlimit")}
 		}
 		// a common list of calls that several goroutines perform (so that the same
 		// shared Patch and buffers are used at the same time), plus a few of their own
@@ -415,6 +426,8 @@ func TestColdChild(t *testing.T) {
 		if msg == "" {
 			if err := after(api, bufs, shared); err != nil {
 				msg = err.Error()
+			} else if err := c.defaultsIntact(api); err != nil {
+				msg = err.Error()
 			}
 		}
 	}
@@ -463,6 +476,9 @@ func check(c Case) ev.Verdict {
 			}
 		}
 		if err := after(api, bufs, shared); err != nil {
+			return ev.Verdict{Err: err}
+		}
+		if err := c.defaultsIntact(api); err != nil {
 			return ev.Verdict{Err: err}
 		}
 	}
@@ -521,7 +537,7 @@ func check(c Case) ev.Verdict {
 	return v
 }
 
-const rule = "workload = pool of 4-11 shared buffers (as C09) x 2/4/8/16 goroutines, each 2-12 calls drawn mostly from a common list of 3-10 calls (so the same shared Patch value and buffers are in use at the same time), 1 in 6 on private copies, 1 in 4 preceded by a yield, repeated 1-3 rounds behind a start barrier under GOMAXPROCS 1/2/4/16; 1 workload in 12 also runs as a cold start in a fresh process; 1 in 4 assigns the package-level defaults (negative indices on/off, copy limit 0/40/400) before any call, also in the cold-start child; race-detector build; non-trivial = one shared Patch value is applied by >=2 goroutines and >=3 different API functions are each called by >=2 goroutines; distinct = distinct serialised workload"
+const rule = "workload = pool of 4-11 shared buffers (as C09) x 2/4/8/16 goroutines, each 2-12 calls drawn mostly from a common list of 3-10 calls (so the same shared Patch value and buffers are in use at the same time), 1 in 6 on private copies, 1 in 4 preceded by a yield, repeated 1-3 rounds behind a start barrier under GOMAXPROCS 1/2/4/16; 1 workload in 12 also runs as a cold start in a fresh process; 1 in 4 assigns the package-level defaults (negative indices on/off, copy limit 0/40/400/-1) before any call, also in the cold-start child, and they must read back unchanged afterwards; one pool in twelve holds a document nested 1 100 / 2 100 levels; race-detector build; non-trivial = one shared Patch value is applied by >=2 goroutines and >=3 different API functions are each called by >=2 goroutines; distinct = distinct serialised workload"
 
 var unitV5 = ev.Unit[Case]{Name: "workload-v5", Rule: rule, Draw: draw("v5"), Check: check, Guard: true}
 var unitLegacy = ev.Unit[Case]{Name: "workload-legacy", Rule: rule, Draw: draw("legacy"), Check: check, Guard: true}
